@@ -70,6 +70,35 @@ func (vfs *OrefaFS) createNode(parent *node, absPath, fileName string, mode fs.F
 	return nd
 }
 
+// errNotFound returns the error of a missing node: the not-a-directory error
+// if the nearest existing ancestor of absPath is not a directory, else noEnt.
+func (vfs *OrefaFS) errNotFound(absPath string, noEnt error) error {
+	vfs.mu.RLock()
+	defer vfs.mu.RUnlock()
+
+	return vfs.errNotFoundNoLock(absPath, noEnt)
+}
+
+// errNotFoundNoLock is errNotFound for callers that already hold vfs.mu.
+func (vfs *OrefaFS) errNotFoundNoLock(absPath string, noEnt error) error {
+	dirName := absPath
+
+	for len(dirName) > avfs.VolumeNameLen(vfs, dirName) {
+		dirName, _ = avfs.SplitAbs(vfs, dirName)
+
+		nd, ok := vfs.nodes[dirName]
+		if ok {
+			if !nd.isDir() {
+				return vfs.err.NotADirectory
+			}
+
+			break
+		}
+	}
+
+	return noEnt
+}
+
 // fillStatFrom returns a OrefaInfo (implementation of fs.FileInfo) from a dirNode dn named name.
 func (nd *node) fillStatFrom(name string) *OrefaInfo {
 	nd.mu.RLock()
